@@ -223,6 +223,14 @@ class Fn:
             base = self.expr(n.value, env, pre)
             if isinstance(n.slice, ast.Slice):
                 raise Untranslatable("slice")
+            if isinstance(base.t, tuple) and base.t[0] == "tuple" and isinstance(n.slice, ast.Constant) \
+                    and isinstance(n.slice.value, int) and not isinstance(n.slice.value, bool):
+                k, ts = n.slice.value, base.t[1]             # t[k] of a tuple, constant k (negative from the end)
+                if not -len(ts) <= k < len(ts):
+                    raise Untranslatable("tuple index out of range")
+                k %= len(ts)
+                names = [self.fresh("proj") if j == k else "_" for j in range(len(ts))]
+                return V(f"(let '({', '.join(names)}) := {base.s} in {names[k]})", ts[k])
             i = self.expr(n.slice, env, pre)
             if base.t == "sdict" and i.t == "Z":
                 nm = self.fresh("item")
